@@ -103,6 +103,7 @@ type AGroup struct {
 }
 
 type AMsg struct {
+	Kind    string   `json:"kind"` // "create" | "update"
 	Idc     string   `json:"idc"`
 	Groups  []AGroup `json:"groups"`
 	Version int64    `json:"version"`
@@ -167,35 +168,27 @@ func (b *Binding) wrapBase(res string) *big.Int {
 	return nil
 }
 
-// Concretise turns an abstract message into a real MsgCreateDeployment.
-func (b *Binding) Concretise(m AMsg, version []byte) (*dtypes.MsgCreateDeployment, error) {
-	msg := &dtypes.MsgCreateDeployment{}
-	msg.ID.Owner = b.Owner
-	switch m.Idc {
+func (b *Binding) concID(idc string) (dtypes.DeploymentID, error) {
+	id := dtypes.DeploymentID{Owner: b.Owner}
+	switch idc {
 	case "fresh":
-		msg.ID.DSeq = b.FreshDSeq
+		id.DSeq = b.FreshDSeq
 	case "exists":
-		msg.ID.DSeq = b.BaseDSeq
+		id.DSeq = b.BaseDSeq
 	case "zero":
-		msg.ID.DSeq = 0
+		id.DSeq = 0
 	case "badowner":
-		msg.ID.Owner = "not-a-bech32-address"
-		msg.ID.DSeq = b.FreshDSeq
+		id.Owner = "not-a-bech32-address"
+		id.DSeq = b.FreshDSeq
 	default:
-		return nil, fmt.Errorf("unknown id class %q", m.Idc)
+		return id, fmt.Errorf("unknown id class %q", idc)
 	}
-	if int(m.Version) > len(version) {
-		return nil, fmt.Errorf("version length %d not supported", m.Version)
-	}
-	if m.Version > 0 {
-		msg.Version = append([]byte{}, version[:m.Version]...)
-	}
-	dep, err := concrete(m.Deposit, 1, nil)
-	if err != nil || dep == nil {
-		return nil, fmt.Errorf("deposit: %v", err)
-	}
-	msg.Deposit = sdk.Coin{Denom: m.DDenom, Amount: sdkInt(dep)}
-	for _, g := range m.Groups {
+	return id, nil
+}
+
+func (b *Binding) concGroups(groups []AGroup) ([]dtypes.GroupSpec, error) {
+	var out []dtypes.GroupSpec
+	for _, g := range groups {
 		gs := dtypes.GroupSpec{Name: g.Name}
 		for _, u := range g.Units {
 			r := dtypes.Resource{}
@@ -230,9 +223,43 @@ func (b *Binding) Concretise(m AMsg, version []byte) (*dtypes.MsgCreateDeploymen
 			r.Price = sdk.Coin{Denom: u.PDenom, Amount: sdkInt(price)}
 			gs.Resources = append(gs.Resources, r)
 		}
-		msg.Groups = append(msg.Groups, gs)
+		out = append(out, gs)
 	}
-	return msg, nil
+	return out, nil
+}
+
+// Concretise turns an abstract message into a real MsgCreateDeployment / MsgUpdateDeployment.
+func (b *Binding) Concretise(m AMsg, version []byte) (wireMsg, error) {
+	id, err := b.concID(m.Idc)
+	if err != nil {
+		return nil, err
+	}
+	if int(m.Version) > len(version) {
+		return nil, fmt.Errorf("version length %d not supported", m.Version)
+	}
+	var ver []byte
+	if m.Version > 0 {
+		ver = append([]byte{}, version[:m.Version]...)
+	}
+	groups, err := b.concGroups(m.Groups)
+	if err != nil {
+		return nil, err
+	}
+	switch m.Kind {
+	case "create":
+		dep, err := concrete(m.Deposit, 1, nil)
+		if err != nil || dep == nil {
+			return nil, fmt.Errorf("deposit: %v", err)
+		}
+		return &dtypes.MsgCreateDeployment{ID: id, Groups: groups, Version: ver,
+			Deposit: sdk.Coin{Denom: m.DDenom, Amount: sdkInt(dep)}}, nil
+	case "update":
+		if m.Deposit != (AVal{K: "lin"}) || m.DDenom != "" {
+			return nil, fmt.Errorf("an update message carries no deposit")
+		}
+		return &dtypes.MsgUpdateDeployment{ID: id, Groups: groups, Version: ver}, nil
+	}
+	return nil, fmt.Errorf("unknown message kind %q", m.Kind)
 }
 
 func bigOf(i sdk.Int) *big.Int {
@@ -267,25 +294,38 @@ func (b *Binding) absGroupSpec(gs dtypes.GroupSpec) AGroup {
 	return g
 }
 
-// Abstract is the projection of a real message (as decoded from the wire) onto the spec's message shape.
-func (b *Binding) Abstract(msg *dtypes.MsgCreateDeployment) AMsg {
-	m := AMsg{Groups: make([]AGroup, 0, len(msg.Groups)), Version: int64(len(msg.Version)), DDenom: msg.Deposit.Denom}
-	_, err := sdk.AccAddressFromBech32(msg.ID.Owner)
+func (b *Binding) absID(id dtypes.DeploymentID) string {
+	_, err := sdk.AccAddressFromBech32(id.Owner)
 	switch {
 	case err != nil:
-		m.Idc = "badowner"
-	case msg.ID.DSeq == 0:
-		m.Idc = "zero"
-	case msg.ID.DSeq == b.BaseDSeq && msg.ID.Owner == b.Owner:
-		m.Idc = "exists"
-	default:
-		m.Idc = "fresh"
+		return "badowner"
+	case id.DSeq == 0:
+		return "zero"
+	case id.DSeq == b.BaseDSeq && id.Owner == b.Owner:
+		return "exists"
 	}
-	m.Deposit = abstract(bigOf(msg.Deposit.Amount), 1, nil)
-	for _, gs := range msg.Groups {
-		m.Groups = append(m.Groups, b.absGroupSpec(gs))
+	return "fresh"
+}
+
+// Abstract is the projection of a real message (as decoded from the wire) onto the spec's message shape.
+func (b *Binding) Abstract(msg wireMsg) (AMsg, error) {
+	switch x := msg.(type) {
+	case *dtypes.MsgCreateDeployment:
+		m := AMsg{Kind: "create", Idc: b.absID(x.ID), Groups: make([]AGroup, 0, len(x.Groups)),
+			Version: int64(len(x.Version)), DDenom: x.Deposit.Denom, Deposit: abstract(bigOf(x.Deposit.Amount), 1, nil)}
+		for _, gs := range x.Groups {
+			m.Groups = append(m.Groups, b.absGroupSpec(gs))
+		}
+		return m, nil
+	case *dtypes.MsgUpdateDeployment:
+		m := AMsg{Kind: "update", Idc: b.absID(x.ID), Groups: make([]AGroup, 0, len(x.Groups)),
+			Version: int64(len(x.Version)), DDenom: "", Deposit: AVal{K: "lin"}}
+		for _, gs := range x.Groups {
+			m.Groups = append(m.Groups, b.absGroupSpec(gs))
+		}
+		return m, nil
 	}
-	return m
+	return AMsg{}, fmt.Errorf("unsupported message type %T", msg)
 }
 
 // errClass maps the implementation's error text onto the reason names used by Verdict(m) in Limits.tla. This
@@ -315,6 +355,8 @@ func errClass(o Outcome) string {
 		{"invalid unit price", "price-range"},
 		{"denomination must be", "price-denom"},
 		{"Deployment exists", "exists"},
+		{"Deployment not found", "not-found"},
+		{"Deployment closed", "closed"},
 		{"Deposit invalid", "deposit"},
 		{"duplicate deployment group name", "dup-name"},
 		{"too many groups", "too-many-groups"},
